@@ -94,6 +94,7 @@ CHECKS = {
         design_ref="§4 C02",
         note="Corners and off-default points, not the continuum; non-finite values are skipped; whole-circuit symbolic-vs-numeric agreement is covered only through the Tlm container configurations.",
         technique="TLA+ spec (Elements.tla) + TLC enumeration of dispatch configurations / corner vectors; spec->code replay with a differential numeric-vs-symbolic comparison in the harness",
+        category="exploration",
     ),
     "C03": dict(
         text="specs/CDC.tla models the scanner (character level), the shift/reduce parser with its shared stack, exact decimal "
